@@ -57,3 +57,13 @@ Record bic_cfg := {
   bc_location : Z * Z;
   bc_branch : Z * Z;
 }.
+
+(* accessor tables read off the one-line property bodies of IBAN and BBAN *)
+Record acc_cfg := {
+  ac_cc : Z * Z;                          (* IBAN.country_code slice *)
+  ac_dd : Z * Z;                          (* IBAN.checksum_digits slice *)
+  ac_bban_start : Z;                      (* IBAN.__init__: self._get_slice(start=..) *)
+  ac_group : Z;                           (* IBAN.formatted block size *)
+  ac_iban_proxy : list (text * text);     (* IBAN property -> BBAN attribute it returns *)
+  ac_bban_comp : list (text * text);      (* BBAN property -> Component value it reads *)
+}.
